@@ -210,7 +210,7 @@ class Built:
     """An implementation input built from a JSON-able case."""
 
     def __init__(self, S, O, costs: dict, labelled: bool = False, unordered: bool = False, blank_internal: bool = False,
-                 dist_seed: Optional[int] = None, fam_scheme: int = 0):
+                 dist_seed: Optional[int] = None, fam_scheme: int = 0, name_seed: Optional[int] = None):
         from superrec2.model.reconciliation import ReconciliationInput, SuperReconciliationInput
         from superrec2.utils.trees import LowestCommonAncestor
         self.S, self.O, self.costs = S, O, costs
@@ -231,6 +231,19 @@ class Built:
                 for n in t.traverse():
                     if not n.is_leaf():
                         n.name = ""
+        if name_seed is not None:
+            # node names carry no meaning for the algorithms: any pairwise distinct names will do, including names
+            # that look generated (O3, S1), differ by case only, or are digits
+            import random as _random
+            rn = _random.Random(name_seed)
+            pool = ["O0", "O1", "O2", "O3", "S0", "S1", "S2", "S3", "a", "A", "b", "B", "x", "X", "1", "2", "10", "01", "n_1", "N_1",
+                    "root", "Root", "NoName0", "g", "G", "sp", "SP", "q7", "Q7", "zz", "ZZ", "w", "W", "k_2", "K_2", "m", "M", "t5", "T5", "u", "U",
+                    "v", "V", "y", "Y", "r0", "R0", "e", "E", "h", "H", "i", "I", "j", "J", "l", "L", "o", "p", "P"]
+            for t in (self.stree, self.otree):
+                nodes = list(t.traverse())
+                names = rn.sample(pool, len(nodes)) if len(nodes) <= len(pool) else [f"n{i}" for i in range(len(nodes))]
+                for n, nm in zip(nodes, names):
+                    n.name = nm
         if dist_seed is not None:
             # branch lengths (and supports) are legal decorations of the trees and mean nothing to reconciliation
             import random as _random
@@ -368,6 +381,7 @@ def primed(case, solve, **kw):
     kw.setdefault("blank_internal", bool(case.get("blank", False)))
     kw.setdefault("dist_seed", case.get("dist"))
     kw.setdefault("fam_scheme", case.get("fnames", 0))
+    kw.setdefault("name_seed", case.get("names"))
     if case.get("prime") == "topology":
         B = Built(case["S"], case["O"], case["costs"], **kw)
         prime_topology(B, solve)
@@ -508,6 +522,11 @@ class Oracle:
 def coherent(c: dict, plain: bool = False) -> bool:
     sl = 0 if plain else c["sloss"]
     return c["spe"] + 2 * sl <= c["dup"] + 2 * c["floss"]
+
+
+def ucoherent(c: dict) -> bool:
+    """the region the UNORDERED solvers' theorems need (wider than `coherent`): spe + sloss <= dup + 2 floss"""
+    return c["spe"] + c["sloss"] <= c["dup"] + 2 * c["floss"]
 
 
 def rand_costs(rng, plain=False, coherent_only=True, hi=3) -> dict:
